@@ -66,7 +66,11 @@ impl UnixStreamConnect {
             co_io_result(self.is_coroutine)?;
 
             // clear the io_flag
+            #[cfg(may_verif)]
+            crate::verif::pt("io.clear_flag", crate::verif::addr(&**self.io_data), 0, 0);
             self.io_data.io_flag.store(0, Ordering::Relaxed);
+            #[cfg(may_verif)]
+            crate::verif::pt("io.syscall", crate::verif::addr(&**self.io_data), 0, 0);
 
             match self.stream.connect(&self.path) {
                 Ok(_) => return Ok(convert_to_stream(self)),
@@ -78,11 +82,15 @@ impl UnixStreamConnect {
                 Err(e) => return Err(e),
             }
 
+            #[cfg(may_verif)]
+            crate::verif::pt("io.recheck", crate::verif::addr(&**self.io_data), 0, 0);
             if self.io_data.io_flag.load(Ordering::Relaxed) != 0 {
                 continue;
             }
 
             // the result is still EINPROGRESS, need to try again
+            #[cfg(may_verif)]
+            crate::verif::pt("io.yield", crate::verif::addr(&**self.io_data), 0, 0);
             yield_with_io(self, self.is_coroutine);
         }
     }
@@ -98,9 +106,15 @@ impl EventSource for UnixStreamConnect {
         crate::scheduler::get_scheduler()
             .get_selector()
             .add_io_timer(&self.io_data, Duration::from_secs(2));
+        #[cfg(may_verif)]
+        let vid = crate::verif::co_vid(&co);
+        #[cfg(may_verif)]
+        crate::verif::pt("iosub.store_co", crate::verif::addr(&**io_data), vid, 0);
         io_data.co.store(co);
 
         // there is event, re-run the coroutine
+        #[cfg(may_verif)]
+        crate::verif::pt("iosub.recheck", crate::verif::addr(&**io_data), vid, 0);
         if io_data.io_flag.load(Ordering::Acquire) != 0 {
             #[allow(clippy::needless_return)]
             return io_data.fast_schedule();
@@ -109,6 +123,8 @@ impl EventSource for UnixStreamConnect {
         #[cfg(feature = "io_cancel")]
         {
             // register the cancel io data
+            #[cfg(may_verif)]
+            crate::verif::pt("iosub.set_cancel", crate::verif::addr(&**io_data), vid, 0);
             cancel.set_io((*io_data).clone());
             // re-check the cancel status
             if cancel.is_canceled() {
